@@ -457,13 +457,17 @@ structure CancelSt where
   cancelled : Bool := false             -- the cancel function has been called on a derived context
   deriving Repr, DecidableEq
 
-def withCancel (f : Mach) : Mach where
+def withCancel (k : Kind) (f : Mach) : Mach where
   σ := CancelSt × f.σ
   init := ({}, f.init)
   call := fun (c, s) dead arg w =>
     let c := if c.fired then c else { c with fired := true, wctx := some dead }
     match c.wctx with
-    | none => { res := .panic [.invariant, .other], st := (c, s), w := w }
+    | none =>
+      -- the cancel function ran before the first call: Worker/Operation/Processor panic with an
+      -- invariant violation; a Producer (the one every iterator is built on) reports context.Canceled
+      if k = .producer then { res := .ret 0 [.canceled], st := (c, s), w := w }
+      else { res := .panic [.invariant, .other], st := (c, s), w := w }
     | some pd =>
       let r := f.call s (pd || c.cancelled) arg w
       { res := r.res, st := (c, r.st), w := r.w }
@@ -598,7 +602,7 @@ def applyW (k : Kind) (layer : Nat) (f : Mach) : WSpec → Except Err Mach
     if k = .handler then .ok (mergeH (base .handler (partId layer 1)) f)
     else .ok (preHook k f (base .operation (partId layer 1)))
   | .postHook => .ok (postHook k f (base .operation (partId layer 1)))
-  | .withCancel => .ok (withCancel f)
+  | .withCancel => .ok (withCancel k f)
   | .ifc c => .ok (ifW k c f)
   | .when cs => .ok (whenW k cs f)
   | .recover => .ok (recover f)
